@@ -25,13 +25,16 @@ class Case:
     def jobs(self):
         js = ["G " + " ".join(self.settings) + " " + hx(self.text)]
         for (algo, partial, inp, _m) in self.inputs:
-            js.append(f"P {algo} {partial} {getattr(self, 'max_trees', 64)} {hx(inp)}")
+            prev = (" " + hx(_m["prev"])) if isinstance(_m, dict) and _m.get("prev") is not None else ""
+            js.append(f"P {algo} {partial} {getattr(self, 'max_trees', 64)} {hx(inp)}{prev}")
         return js
 
     def describe(self, k=None):
         d = {"grammar": self.text, "settings": " ".join(self.settings), "tag": self.tag}
         if k is not None:
             algo, partial, inp, meta = self.inputs[k]
+            if isinstance(meta, dict) and meta.get("prev") is not None:
+                d["parsed_before_with_the_same_parser_object"] = meta["prev"]
             d.update({"algo": algo, "partial": partial, "input": inp, "input_hex": hx(inp),
                       "impl": self.results[k] if k < len(self.results) else None,
                       "model": self.model[k] if k < len(self.model) else None})
@@ -92,6 +95,30 @@ def run_cases(cases, model=True, extra_requests=None, parse_model=True):
     return cases
 
 
+def add_histories(rng, cases, p=0.25):
+    """parser objects are reusable: with probability p an input is parsed by a parser object that parsed another input
+    of the same case first (preferring one that is rejected after something was shifted); the expected answer is that
+    of a fresh parser (the model is stateless), so any state leaking from one parse into the next shows up in every
+    oracle and in the correspondence"""
+    for c in cases:
+        if len(c.inputs) < 2:
+            continue
+        for (algo, partial, inp, meta) in c.inputs:
+            if isinstance(meta, dict) and rng.random() < p:
+                prev = rng.choice(c.inputs)[2]
+                if len(prev) <= 40:
+                    meta["prev"] = prev
+    return cases
+
+
+def apply_replay_history(c, p):
+    prev = p.get("parsed_before_with_the_same_parser_object")
+    if prev is not None:
+        for (_, _, _, meta) in c.inputs:
+            if isinstance(meta, dict):
+                meta["prev"] = prev
+
+
 def klass(ans):
     """outcome class of an answer line"""
     w = ans.split(" ", 1)[0]
@@ -112,6 +139,18 @@ def same_answer(impl, model):
 # generators
 # --------------------------------------------------------------------------------------------
 
+WS_ATOMS = [" ", "\n", "\t", "\r\n", " ", "\n"]
+WS_ATOMS_UNI = WS_ATOMS + ["\u00a0", "\u2003"]
+
+
+def gap(rng, atoms, pool):
+    """a gap between tokens: one of the fixed pool entries, or (1 in 3) a run of 2-3 whitespace atoms in any order
+    (`" \n"`, `"\t\n"`, `"\n \n"`, ...: runs that END in a newline after other characters matter for line/column)"""
+    if rng.random() < 0.33:
+        return "".join(rng.choice(atoms) for _ in range(rng.randint(2, 3)))
+    return rng.choice(pool)
+
+
 def render_input(rng, g, toks, ws="none"):
     """token names -> input string; ws: none|space|mixed"""
     chars = [g.terms[t] for t in toks]
@@ -128,20 +167,23 @@ def render_input(rng, g, toks, ws="none"):
         if g.layout is not None:
             pool = ["", " ", "  ", "\n", "\t", " \n ", "\r\n"]
     out = ""
+    atoms = None
+    if ws == "mixed":
+        atoms = WS_ATOMS if g.layout is not None else WS_ATOMS_UNI
     for c in chars:
-        out += rng.choice(pool) + c
+        out += (gap(rng, atoms, pool) if atoms else rng.choice(pool)) + c
     out += rng.choice(pool[:3])
     return out
 
 
 def bnf_cases(rng, n_grammars, tts=("LALR", "LALR_PAGER"), algo="LR", max_len=4, n_sent=8, n_mut=8,
               partial=("0",), ws=("none",), gen_kw=None, glr_scope=False, extra_settings=None, annot=False,
-              allow_cyclic=False):
+              allow_cyclic=False, generator=None):
     cases = []
     tries = 0
     while len(cases) < n_grammars * len(tts) and tries < n_grammars * 50:
         tries += 1
-        g = random_grammar(rng, **(gen_kw or {}))
+        g = (generator or random_grammar)(rng, **(gen_kw or {}))
         if g.undefined_symbols() or not g.all_productive():
             continue
         if glr_scope and not g.in_glr_scope():
